@@ -82,7 +82,9 @@ MoreLeaves(x) ==
         Truth(MCall(x, "n_ge", IntV(0))),
         CmpC("eq", MCall(x, "n_plus", IntV(0)), LitI(0)),
         Truth(MCall(At(x, "s"), "startswith", StrV(<<>>))),
-        CmpC("ge", MCall(At(x, "items"), "count", IntV(0)), LitI(1)) >>
+        CmpC("ge", MCall(At(x, "items"), "count", IntV(0)), LitI(1)),
+        \* a user predicate whose body builds and evaluates a query of its own
+        PredC("p_qge2", <<At(x, "n")>>, "fn") >>
 
 LeavesG1 == CoreLeaves(V(1)) \o MoreLeaves(V(1))
 
